@@ -52,6 +52,15 @@ Theorem C20_text_Sequence : forall n, n < 4294967296 -> parse_sequence (print_se
 Proof. exact parse_print_sequence. Qed.
 Theorem C20_text_LockTime : forall l, locktime_wf l = true -> parse_locktime (print_locktime l) = Ok l.
 Proof. exact parse_print_locktime. Qed.
+(* FINDING F17: `LockTime` derives Deserialize, and the derived code never looks at the threshold, so serde hands out values that violate the
+   type's own invariant: {"Blocks":500000000} deserializes to LockTime::Blocks(Height(500000000)), whose Display form "500000000" parses to
+   Seconds(Time(500000000)).  Known class: ~ locktime_wf.  The model's de_locktime is faithful to that; outside the class the full statement holds
+   (C20_text_LockTime above), and the class is exactly where it fails: *)
+Theorem C20_text_LockTime_deserialized_refuted :
+  exists v l, de_locktime v = Ok l /\ locktime_to_consensus l < 4294967296 /\ parse_locktime (print_locktime l) <> Ok l.
+Proof. exists (VMap [(VStr "Blocks"%lb, VU64 500000000)]), (Blocks 500000000). vm_compute. repeat split; congruence. Qed.
+Theorem C20_text_LockTime_exact : forall l, locktime_to_consensus l < 4294967296 -> (parse_locktime (print_locktime l) = Ok l <-> locktime_wf l = true).
+Proof. exact parse_print_locktime_iff. Qed.
 Theorem C20_text_Height : forall h, h < C20_LOCK_TIME_THRESHOLD -> parse_height (print_height h) = Ok h.
 Proof. exact parse_print_height. Qed.
 Theorem C20_text_Time : forall t, C20_LOCK_TIME_THRESHOLD <= t -> t < 4294967296 -> parse_time (print_time t) = Ok t.
@@ -174,6 +183,7 @@ Check (C20_text_hash_newtypes : forall name len db pb b,
 Check (C20_text_AssetBlindingFactor : forall b, length b = 32%nat -> tweak_ok b = true ->
   parse_bf hashlen_AssetBlindingFactor hash_parse_backward_AssetBlindingFactor (print_bf hash_display_backward_AssetBlindingFactor b) = Ok b).
 Check (C20_text_LockTime : forall l, locktime_wf l = true -> parse_locktime (print_locktime l) = Ok l).
+Check (C20_text_LockTime_exact : forall l, locktime_to_consensus l < 4294967296 -> (parse_locktime (print_locktime l) = Ok l <-> locktime_wf l = true)).
 Check (C20_text_OutPoint : forall o, length (o_txid o) = 32%nat -> o_vout o < 4294967296 -> parse_outpoint (print_outpoint o) = Ok o).
 Check (C20_text_EcdsaSighashType : forall v, is_variant ecdsa_sighash_variants v = true -> parse_ecdsa_sighash (print_ecdsa_sighash v) = Ok v).
 Check (C20_text_SchnorrSighashType : forall v, is_variant schnorr_sighash_variants v = true -> parse_schnorr_sighash (print_schnorr_sighash v) = Ok v).
